@@ -181,13 +181,13 @@ Definition glued_witness : text :=
   [120; 32; 61; 32; 97; 32; 111; 114; 34; 115; 34; 10].
 
 Example prefix_glued_fixed :
-  lex_sane (table_of [] [] []) glued_witness = true
-  /\ scan_regions (table_of [] [] []) glued_witness = [(8, 11, Some [])].
+  lex_sane (table_of [] [] [] []) glued_witness = true
+  /\ scan_regions (table_of [] [] [] []) glued_witness = [(8, 11, Some [])].
 Proof. vm_compute. split; reflexivity. Qed.
 
 (* the side condition cannot be dropped: an illegal prefix spelling still separates rope from the lexer
    (only on texts that are not valid programs):  bb<dq>x<dq>  *)
-Theorem prefix_spelling_refuted : exists s, scan_regions (table_of [] [] []) s <> ref_regions s.
+Theorem prefix_spelling_refuted : exists s, scan_regions (table_of [] [] [] []) s <> ref_regions s.
 Proof. exists [98; 98; 34; 120; 34]. vm_compute. discriminate. Qed.
 
 (* ... and, on a VALID program, the nesting of Python 3.12 f-strings (open finding):  x = f<dq>{d[<dq>k<dq>]}<dq>
@@ -197,13 +197,13 @@ Definition fnest_witness : text :=
 
 Theorem fstring_nesting_refuted :
   ref_regions fnest_witness = [(4, 15, Some [102])]
-  /\ scan_regions (table_of [] [] []) fnest_witness = [(4, 10, Some [102]); (11, 15, Some [])]
-  /\ lex_sane (table_of [] [] []) fnest_witness = false.
+  /\ scan_regions (table_of [] [] [] []) fnest_witness = [(4, 10, Some [102]); (11, 15, Some [])]
+  /\ lex_sane (table_of [] [] [] []) fnest_witness = false.
 Proof. vm_compute. repeat split; reflexivity. Qed.
 
 Example lex_sane_example :
   (* x = rb<dq>a<dq> + f<dq>{d[<sq>k<sq>]:>{w}}<dq> # c *)
   let s := [120; 32; 61; 32; 114; 98; 34; 97; 34; 32; 43; 32; 102; 34; 123; 100; 91; 39; 107; 39; 93; 58; 62; 123; 119; 125; 125; 34; 32; 35; 32; 99; 10] in
-  lex_sane (table_of [] [] []) s = true
-  /\ scan_regions (table_of [] [] []) s = [(4, 9, Some [114; 98]); (12, 28, Some [102]); (29, 32, None)].
+  lex_sane (table_of [] [] [] []) s = true
+  /\ scan_regions (table_of [] [] [] []) s = [(4, 9, Some [114; 98]); (12, 28, Some [102]); (29, 32, None)].
 Proof. vm_compute. split; reflexivity. Qed.
